@@ -638,11 +638,12 @@ class InsightsConfig(object):
             return
         try:
             if parsedconfig.has_section(constants.app_name):
-                d = dict(parsedconfig.items(constants.app_name))
+                section = constants.app_name
             elif parsedconfig.has_section('redhat-access-insights'):
-                d = dict(parsedconfig.items('redhat-access-insights'))
+                section = 'redhat-access-insights'
             else:
                 raise ConfigParser.Error
+            d = dict(parsedconfig.items(section))
         except ConfigParser.Error:
             if self._print_errors:
                 sys.stdout.write('ERROR: Could not read configuration file, ' 'using defaults\n')
@@ -650,11 +651,11 @@ class InsightsConfig(object):
         for key in d:
             try:
                 if key == 'retries' or key == 'cmd_timeout':
-                    d[key] = parsedconfig.getint(constants.app_name, key)
+                    d[key] = parsedconfig.getint(section, key)
                 if key == 'http_timeout':
-                    d[key] = parsedconfig.getfloat(constants.app_name, key)
+                    d[key] = parsedconfig.getfloat(section, key)
                 if key in DEFAULT_BOOLS and isinstance(d[key], six.string_types):
-                    d[key] = parsedconfig.getboolean(constants.app_name, key)
+                    d[key] = parsedconfig.getboolean(section, key)
             except ValueError as e:
                 if self._print_errors:
                     sys.stdout.write(
